@@ -1107,6 +1107,7 @@ func runC01(e *Env) error {
 		"templates from the grammar text | {{ var }} | if | for | include | extends+block | a call of an unknown function (fails at render) | three kinds of syntax error; " +
 		"a template refers only to lower-numbered names (acyclic); about one source in forty is padded to 2.6–21 KB (text, many small tags, or if/for bodies), the regression corpus runs again with every source padded along a falling and a rising ladder of lengths, and every ordered pair of (length, shape) kinds is parsed one after the other on three routes (also compared with a direct computation of the output). Every Render is compared with (1) a fresh engine holding the same templates in this process, " +
 		"(2) for a sample, a pristine child process, (3) the Lean model run pool-free and with pools under LIFO / FIFO / seeded-random Get oracles. " +
+		"plus the endurance dimension (c01_soak.go): every expression site of every tag × four ways of failing there, every other failing exit of include / extends / import / from / macro, the engine API's own failures, a writer that fails after k bytes and every successful probe, each repeated 1100 (thorough: 10000) times on an engine of its own, on one engine in turn and in seeded interleavings, with one probe template per tag rendered at the check points 1 2 3 5 9 17 … and compared with literals and with a twin engine that never saw the repetitions (implementation-only). " +
 		"plus attribute reads of 12 Go types met for the first time in every order of value/pointer and field/method (process-wide attribute cache; implementation-only). non-trivial = a render with non-empty output that follows at least one earlier parse or render; distinct by the operation list"
 	if e.Replay != "" {
 		return c01ReplayFile(e)
@@ -1138,6 +1139,13 @@ func runC01(e *Env) error {
 		}
 	}
 	r.Sample(map[string]any{"kind": "corpus", "ops": c01OpsJSON(c01Corpus()[1])})
+	// the endurance dimension: one operation repeated a few hundred times on one engine, see c01_soak.go
+	if err := c01Soak(e, ""); err != nil {
+		return err
+	}
+	if r.Full() {
+		return nil
+	}
 	// the size dimension: long sources (another tokenizer, other buffer classes), see c01_sizes.go
 	if ok, err := c01SizeCorpus(e); err != nil || !ok {
 		return err
@@ -1226,6 +1234,9 @@ func runC01(e *Env) error {
 
 // c01ReplayFile re-runs a recorded violation's history (the "ops" array of its replay object).
 func c01ReplayFile(e *Env) error {
+	if name, ok := c01IsSoakReplay(e.Replay); ok {
+		return c01SoakReplay(e, name)
+	}
 	b, err := os.ReadFile(e.Replay)
 	if err != nil {
 		return err
